@@ -435,11 +435,10 @@ def profile_unit(u, q, defs, vins, work, unwind=40, workers=None):
 
     def one(iv):
         i, vin = iv
-        qq = Query(q.name, unwind=unwind)
         d2 = defs + ['-DVIN_CONCRETE=%s' % ','.join(str(v) for v in (vin or [0]))]
         cmd = ['cbmc', os.path.join(u.dir, 'all.c'), os.path.join(TOOLS, 'ir2c_rt.c'), os.path.join(VERIF, u.main_c),
                '-I', TOOLS, '-I', u.dir] + u.inc + d2 + ['--object-bits', '12', '--no-malloc-may-fail', '--drop-unused-functions',
-                                                '--no-standard-checks', '--unwind', str(unwind), '--verbosity', '9']
+                                                '--no-standard-checks', '--unwind', str(unwind), '--verbosity', '9'] + list(q.extra_cbmc)
         try:
             p = subprocess.run(cmd, stdout=subprocess.PIPE, stderr=subprocess.STDOUT, text=True, errors='replace', timeout=180)
             out = p.stdout
@@ -584,7 +583,7 @@ class Runner:
             lp = os.path.join(u.dir, 'q_%s_%s' % (re.sub(r'\W', '_', q.name), 'w' if wit else 'm'))
             if q.profile:
                 t0 = time.time()
-                tot = profile_unit(u, q, q.defs + kf_defs, q.profile, u.dir, workers=2)
+                tot = profile_unit(u, q, q.defs + kf_defs, q.profile, u.dir, unwind=max(40, q.hardcap + 2), workers=2)
                 hints = {k: v + 1 for k, v in tot.items() if v + 1 > q.unwind}
                 for lid in harness_loops(u, q.defs + kf_defs):
                     hints[lid] = max(hints.get(lid, 0), q.harness_unwind)
